@@ -18,7 +18,10 @@ var SpecC20 = engine.Spec{
 }
 
 type crashHistory struct {
-	Name    string
+	// CrossDevice: the system temporary directory is on another file system than the store (renames between
+	// directories fail with EXDEV)
+	CrossDevice bool
+	Name        string
 	Pre     []op // executed normally
 	Last    op   // executed with the crash
 	Missing bool // configured directory does not exist at the start
@@ -32,6 +35,16 @@ func crashHistories(thorough bool) []crashHistory {
 		{Name: "overwrite-with-neighbour", Pre: []op{{Kind: "store", Doc: "d2", ID: "b"}, {Kind: "store", Doc: "d1", ID: "a"}}, Last: op{Kind: "store", Doc: "d3", ID: "a"}},
 		{Name: "missing-directory", Last: op{Kind: "store", Doc: "d1", ID: "a"}, Missing: true},
 		{Name: "noclobber-first-store", Last: op{Kind: "store", Doc: "d1", ID: "a", NoClobber: true}},
+	}
+	// the same histories in the environment where the temporary directory is on another file system
+	n := len(hs)
+	for i := 0; i < n; i++ {
+		h := hs[i]
+		if h.Name == "first-store" || h.Name == "overwrite" || h.Name == "overwrite-with-neighbour" {
+			h.Name += "+tmpdir-on-other-filesystem"
+			h.CrossDevice = true
+			hs = append(hs, h)
+		}
 	}
 	if thorough {
 		hs = append(hs,
@@ -84,11 +97,13 @@ func RunC20(c *engine.Ctx) {
 			continue
 		}
 		vfs.Reset(vfs.Record)
+		vfs.CrossDevice = h.CrossDevice
 		r := doStore(dir, docVariant(h.Last.Doc, h.Last.ID), h.Last.NoClobber)
+		vfs.CrossDevice = false
 		log := vfs.Log()
 		vfs.Reset(vfs.Passthrough)
 		os.RemoveAll(sandbox)
-		if r.class() != "ok" {
+		if r.class() != "ok" && !h.CrossDevice {
 			c.Note(fmt.Sprintf("harness: history %s: recording run of the last store did not succeed: %s %v", h.Name, r.class(), r.Err))
 			continue
 		}
@@ -127,9 +142,12 @@ func crashCase(t *engine.T, h crashHistory, k, p int) *engine.Violation {
 	}
 	newDoc := docVariant(h.Last.Doc, h.Last.ID)
 	vfs.SetCrash(k, p)
+	vfs.CrossDevice = h.CrossDevice
 	res := doStore(dir, newDoc, h.Last.NoClobber)
+	vfs.CrossDevice = false
 	reached := vfs.Frozen()
 	vfs.Reset(vfs.Passthrough)
+	storeFailed := res.Err != nil
 	t.Transitions(1)
 	_ = res
 	// the process is dead; a new process retrieves
@@ -167,11 +185,11 @@ func crashCase(t *engine.T, h crashHistory, k, p int) *engine.Violation {
 			}
 			return engine.Violate("torn-entry", kind, "%s: Retrieve returned a %s document (id %q, name %q, %d nodes) that is neither the complete previous nor the complete new one", where, kind, got.Doc.GetMetadata().GetId(), got.Doc.GetMetadata().GetName(), len(got.Doc.GetNodeList().GetNodes()))
 		}
-		if !reached && !isNew {
+		if !reached && !isNew && !storeFailed {
 			return engine.Violate("completed-store-lost", "", "%s: the store completed but the new document is not retrievable", where)
 		}
 	}
-	if !reached && (got.Err != nil || got.Exit) {
+	if !reached && !storeFailed && (got.Err != nil || got.Exit) {
 		return engine.Violate("completed-store-lost", "", "%s: the store completed but Retrieve gives %s", where, got.class())
 	}
 	// other entries are unaffected
